@@ -27,6 +27,8 @@ func runC16(c *Ctx) {
 	c.locksetErrOnly = map[string]string{"err": "C16 is stated for runs in which no alignment error is reported"}
 	c.checkLockset(ph, "lockset")
 	c.locksetErrOnly = nil
+	c.checkWorkersDrain(ph, "workers-drain")
+	L.Floor("workers-drain", 1, "worker loop")
 	L.Rule("best-record-replaced", "in the search for the best reference/frame, when a candidate with a better score is found every field of the best record (start, end, sequence, alignment, leading-gap count, ratios) is recomputed from that candidate alone, never from its own previous value")
 	nb := 0
 	for _, nme := range []string{"alignAgainstRefsAA", "alignAgainstRefsNT"} {
